@@ -27,7 +27,7 @@ ASSUMPTIONS = [
     'bit-exact comparison treats -0.0 and 0.0 as the same value',
 ]
 ANCHORS = ['Table.filter', 'Table.remove_empty', 'Table.head']
-REQUIRED = ['tables_with_non_finite_values', 'predicate_calls_checked', 'filter_by_ids', 'filter_by_predicate',
+REQUIRED = ['tables_with_bytes_category_names', 'tables_with_non_finite_values', 'predicate_calls_checked', 'filter_by_ids', 'filter_by_predicate',
             'remove_empty_calls', 'head_calls', 'unknown_id_refused',
             'layout_unsorted_seen', 'layout_csc_seen']
 
@@ -290,6 +290,18 @@ def run_random(ctx, index):
     ctx.cls('ids', spec.classes['ids_obs'])
     ctx.cls('values', spec.classes['values'])
     ctx.cls('recipe', recipe)
+
+    if r.random() < .1:
+        # category names need not be str: bytes (what HDF5 / Python-2 era
+        # code hands over) name other categories than their decoded text
+        for which in ('obs_md', 'samp_md'):
+            md_ = getattr(spec, which)
+            if md_:
+                setattr(spec, which, [{(k.encode('utf-8') if isinstance(
+                    k, str) else k): v for k, v in e.items()} for e in md_])
+        desc0 = {'table': repr(spec.describe()), 'recipe': recipe,
+                 'bytes_category_names': True}
+        ctx.count('tables_with_bytes_category_names')
 
     def make():
         return gen.apply_layout(ctx.biom, spec, recipe,
